@@ -39,6 +39,8 @@ from ..framework import lean_driver
 PROP = "C14"
 LEAN_TARGETS = ["Eliot.Properties.C14"]
 AUDIT = "Eliot/Audit/C14.lean"
+SKELETON_TARGETS = {"Eliot.ShapesSkel.validate_shape (E16: _MessageSerializer.validate - presence, per-field validation, then the no-extras rule)":
+                    ("Eliot.Properties.ShapesSkel", "Eliot/Audit/ShapesSkel.lean", ["Eliot.ShapesSkel.validate_shape"])}
 THEOREMS = [
     "VM.validate_iff",
     "VM.failure_and_traceback_allow_extra",
